@@ -392,7 +392,8 @@ def rule_id_lookup(ctx, r):
 
 def run(ctx):
     r1 = ctx.rule("R1", "decision table of the scheduler: 6 backend states x dependencies pending x stale -> submits, shown status")
-    rule_decision_table(ctx, r1)
+    from .evalhelpers import schedule_witness
+    ctx.structural_or_witness(r1, rule_decision_table, lambda: schedule_witness(ctx, full=(ctx.tier == "thorough")), "src/gwf/scheduling.py::schedule", both=True)
     r1b = ctx.rule("R1b", "one submit per decision, nothing evaluated after it, dependencies decided first on every path", min_instances=5)
     rule_submit_discipline(ctx, r1b)
     r2 = ctx.rule("R2", "prerequisites = direct dependencies whose scheduled status is not complete", min_instances=3)
